@@ -253,7 +253,10 @@ class GridPoints:
         self._grid_mapping_table = None
 
         if self._is_shift is None:
+            # Neither rotations nor time reversal map an arbitrarily shifted
+            # grid onto itself.
             self._is_mesh_symmetry = False
+            self._is_time_reversal = False
             self._is_shift = self._shift2boolean(None)
             self._set_grid_points()
             self._ir_qpoints += q_mesh_shift / self._mesh
